@@ -20,6 +20,9 @@ THEOREMS = [
     "Qentem.BigInt.addAt_spec",
     "Qentem.BigInt.subAt_spec",
     "Qentem.BigInt.assign_zero_eq",
+    "Qentem.Props.C19.C19_signed",
+    "Qentem.Props.C19.signedOperand_nonneg",
+    "Qentem.Props.C19.signedOperand_lt",
     "Qentem.Props.C19.step_exact",
     "Qentem.Props.C19.run_exact",
     "Qentem.Props.C19.C19_native",
@@ -78,6 +81,36 @@ TYPES = [("8", 8), ("16", 16), ("32", 32), ("64", 64), ("128", 128), ("L", 64),
 
 def pick_type(rng):
     return rng.choice(TYPES) if rng.random() < 0.6 else rng.choice(TYPES[:5])
+
+
+def negative_operand(rng, W, ty, vbits):
+    """a negative value of the signed type `ty` (vbits = its bits - 1) and the unsigned value it denotes for
+    W-bit words: the two's-complement pattern at width max(bits, W)"""
+    bits = vbits + 1
+    r = rng.random()
+    if r < 0.35:
+        x = -rng.choice([1, 1, 2, 3, 1 << vbits, (1 << vbits) - 1, 255, 256])
+    elif r < 0.6:
+        x = -(1 << rng.randrange(0, vbits + 1))
+    elif r < 0.8:
+        j = rng.randrange(0, max(1, bits // W) + 1) * W
+        x = -((1 << min(j, vbits)) + rng.choice([-1, 0, 1]))
+    else:
+        x = -rng.randrange(1, (1 << vbits) + 1)
+    x = max(x, -(1 << vbits))
+    if x >= 0:
+        x = -1
+    return x, x % (1 << max(bits, W))
+
+
+def typed_operand(rng, W, limit):
+    """(type token, value as written, value it denotes)"""
+    ty, K = pick_type(rng)
+    if ty.startswith("s") and rng.random() < 0.3:
+        x, u = negative_operand(rng, W, ty, K)
+        return ty, x, u
+    x = wide_operand(rng, W, K, limit)
+    return ty, x, x
 
 
 def word_operand(rng, W):
@@ -175,17 +208,14 @@ def gen_sequence(rng, W, n, length):
         r = rng.random()
         fit = rng.random() < 0.85
         if r < 0.06:
-            ty, K = pick_type(rng)
-            x = wide_operand(rng, W, K, M if fit else None)
-            ops.append("%s:%s:%d" % (rng.choice(["as", "as", "cn"]), ty, x)); v = x & M
+            ty, x, u = typed_operand(rng, W, M if fit else None)
+            ops.append("%s:%s:%d" % (rng.choice(["as", "as", "cn"]), ty, x)); v = u & M
         elif r < 0.17:
-            ty, K = pick_type(rng)
-            x = wide_operand(rng, W, K, (M - v) if fit else None)
-            ops.append("ad:%s:%d" % (ty, x)); v = (v + x) & M
+            ty, x, u = typed_operand(rng, W, (M - v) if fit else None)
+            ops.append("ad:%s:%d" % (ty, x)); v = (v + u) & M
         elif r < 0.26:
-            ty, K = pick_type(rng)
-            x = wide_operand(rng, W, K, v if fit else None)
-            ops.append("sb:%s:%d" % (ty, x)); v = (v - x) & M
+            ty, x, u = typed_operand(rng, W, v if fit else None)
+            ops.append("sb:%s:%d" % (ty, x)); v = (v - u) & M
         elif r < 0.28:
             # Add / Subtract(number, index)
             i = rng.choice([0, 0, 1, n - 1, n, n + 1, rng.randrange(0, n + 1)])
@@ -199,13 +229,11 @@ def gen_sequence(rng, W, n, length):
                     x = min(x, v >> (W * i))
                 ops.append("si:%d:%d" % (i, x)); v = (v - (x << (W * i))) & M
         elif r < 0.33:
-            ty, K = pick_type(rng)
-            x = wide_operand(rng, W, K, M if fit else None)
-            ops.append("or:%s:%d" % (ty, x)); v = (v | x) & M
+            ty, x, u = typed_operand(rng, W, M if fit else None)
+            ops.append("or:%s:%d" % (ty, x)); v = (v | u) & M
         elif r < 0.37:
-            ty, K = pick_type(rng)
-            x = wide_operand(rng, W, K, M if fit else None)
-            ops.append("an:%s:%d" % (ty, x)); v = (v & x) & M
+            ty, x, u = typed_operand(rng, W, M if fit else None)
+            ops.append("an:%s:%d" % (ty, x)); v = (v & u) & M
         elif r < 0.50:
             x = word_operand(rng, W)
             if fit and v * x > M:
@@ -460,7 +488,7 @@ def run(ctx):
     if unc:
         ctx.infra_errors.append("public API of BigInt not driven by the harness: %s" % unc)
     ctx.assumptions += [
-        "signed N_Number_T arguments carry non-negative values (negative ones: known finding, see notes/findings-bigint.txt)",
+        "a negative operand of a signed type denotes its two's-complement value at width max(type bits, word bits) (Model.signedOperand)",
         "fixed instantiations: " + ", ".join("%dx%d" % (w, n) for (w, n) in INST) + " (word bits x word count)",
         "DoubleSize<_,64> at half widths 4 and 8 is exercised through a no-promotion integer class; BigInt itself only instantiates it at 64-bit words",
     ]
